@@ -37,10 +37,8 @@ func docsKeyProvenance(c *Ctx, p *core.Prog, o *eng.NEObligation) (bool, string)
 	if !ok || core.StaticCalleeName(&call.Call) != "strings.Split" {
 		return false, ""
 	}
-	prm, ok := call.Call.Args[0].(*ssa.Parameter)
-	if !ok {
-		return false, ""
-	}
+	keyArg := core.Unspill(call.Call.Args[0])
+	prm, isPrm := keyArg.(*ssa.Parameter)
 	comps, sepOK := docKeyComponents(p)
 	if !sepOK || int64(comps) < o.Need {
 		return false, ""
@@ -49,7 +47,13 @@ func docsKeyProvenance(c *Ctx, p *core.Prog, o *eng.NEObligation) (bool, string)
 	if !isPathSepString(call.Call.Args[1]) {
 		return false, ""
 	}
-	if ok, why := tracesToDocsKey(p, o.Fn, prm, 0, map[*ssa.Parameter]bool{}); ok {
+	if !isPrm {
+		if isDocsKey(keyArg, 0) {
+			return true, fmt.Sprintf("docs-key provenance: the string split is a key of Classifier.docs; keys are built by generateDocName with %d separator-delimited components", comps)
+		}
+		return false, ""
+	}
+	if ok, why := tracesToDocsKey(p, prm.Parent(), prm, 0, map[*ssa.Parameter]bool{}); ok {
 		return true, fmt.Sprintf("docs-key provenance: every in-repo caller passes a key of Classifier.docs (%s); keys are built by generateDocName with %d separator-delimited components", why, comps)
 	}
 	return false, ""
@@ -168,7 +172,7 @@ func isDocsKey(v ssa.Value, depth int) bool {
 	if !ok {
 		return false
 	}
-	if core.LoadOfField(rg.X, "/v2.Classifier", "docs") {
+	if isClsField(rg.X, func(r *v2Roles) string { return r.docs }) {
 		return true
 	}
 	if mm, ok := rg.X.(*ssa.MakeMap); ok {
